@@ -566,3 +566,47 @@ fn c11_empty() {
     assert!(p.indefinite().segments.is_empty(), "[spec] empty input gives empty output");
     kani::cover!(true, "[cover] the end of the harness is reachable (assumptions are satisfiable)");
 }
+
+// =============================================================================================
+// C17: approximate equality of segments and piecewise functions is number-by-number (ends and coefficients), and
+// piecewise functions with different numbers of pieces are never approximately equal.
+// =============================================================================================
+fn small_f() -> f64 { let v: i8 = kani::any(); kani::assume(v >= -100 && v <= 100); v as f64 }
+const TOLS: [f64; 2] = [0.0, 1.0];
+fn tiny_any() -> f64 { let v: i8 = kani::any(); kani::assume(v >= -8 && v <= 8); v as f64 }
+fn c17_pw<const N: usize, const M: usize>() {
+    let mut a = [Segment { end: 0.0, poly: Poly1([0.0, 0.0]) }; N];
+    let mut b = [Segment { end: 0.0, poly: Poly1([0.0, 0.0]) }; M];
+    let mut i = 0;
+    while i < N { a[i] = Segment { end: tiny_any(), poly: Poly1([tiny_any(), tiny_any()]) }; i += 1; }
+    let mut i = 0;
+    while i < M { b[i] = Segment { end: tiny_any(), poly: Poly1([tiny_any(), tiny_any()]) }; i += 1; }
+    let (pa, pb) = (Piecewise { segments: a.to_vec() }, Piecewise { segments: b.to_vec() });
+    let mut ei = 0;
+    while ei < TOLS.len() {
+        let eps = TOLS[ei];
+        let mut want = N == M;
+        let mut wantr = N == M;
+        let mut i = 0;
+        while i < N && i < M {
+            let s = a[i].end.abs_diff_eq(&b[i].end, eps) && a[i].poly.0[0].abs_diff_eq(&b[i].poly.0[0], eps) && a[i].poly.0[1].abs_diff_eq(&b[i].poly.0[1], eps);
+            assert!(a[i].abs_diff_eq(&b[i], eps) == s, "[spec] Segment: abs_diff_eq over the breakpoint and every coefficient");
+            let sr = a[i].end.relative_eq(&b[i].end, eps, 0.5) && a[i].poly.0[0].relative_eq(&b[i].poly.0[0], eps, 0.5) && a[i].poly.0[1].relative_eq(&b[i].poly.0[1], eps, 0.5);
+            assert!(a[i].relative_eq(&b[i], eps, 0.5) == sr, "[spec] Segment: relative_eq over the breakpoint and every coefficient");
+            want = want && s;
+            wantr = wantr && sr;
+            i += 1;
+        }
+        assert!(pa.abs_diff_eq(&pb, eps) == want, "[spec] Piecewise: same number of pieces and every corresponding number approximately equal");
+        assert!(pa.relative_eq(&pb, eps, 0.5) == wantr, "[spec] Piecewise relative_eq: same number of pieces and every corresponding number");
+        ei += 1;
+    }
+    kani::cover!(true, "[cover] reachable");
+}
+#[kani::proof] #[kani::unwind(6)] fn c17_pw_1_1() { c17_pw::<1, 1>() }
+#[kani::proof] #[kani::unwind(6)] fn c17_pw_2_2() { c17_pw::<2, 2>() }
+#[kani::proof] #[kani::unwind(6)] fn c17_pw_1_2() { c17_pw::<1, 2>() }
+#[kani::proof] #[kani::unwind(6)] fn c17_pw_2_1() { c17_pw::<2, 1>() }
+#[kani::proof] #[kani::unwind(6)] fn c17_pw_0_1() { c17_pw::<0, 1>() }
+#[kani::proof] #[kani::unwind(6)] fn c17_pw_0_0() { c17_pw::<0, 0>() }
+#[kani::proof] #[kani::unwind(6)] fn c17_pw_3_3() { c17_pw::<3, 3>() }
